@@ -207,7 +207,7 @@ def run(tier):
             jobs.append(dict(children=[st], how=how))
     jobs.append(dict(children=[], how='terminate'))
     jobs.append(dict(children=[], how='sigterm'))
-    for _ in range(120 if thorough else 14):
+    for _ in range(120 if thorough else 30):
         n = r.randint(2, 4)
         jobs.append(dict(children=[r.choice(STATES) for _ in range(n)], how=r.choice(['terminate', 'sigterm']), settle=r.choice([0.0, 0.2, 0.6])))
     wd = workdir('c12')
